@@ -58,21 +58,25 @@ T_Setup == /\ Ev.ev = "Setup" /\ pc = "idle"
            /\ Chk("great-circle", GcOK(Ev))
            /\ Setup(ScnOf(Ev))
 
+(* A Relax event groups what the decorators saw about one incident edge.  Only what the property      *)
+(* family depends on is compared: the frontier verdict and the last edge it was given (when the       *)
+(* frontier model was consulted), the state handed to and produced by the access and traversal        *)
+(* models (when they were called for a permitted edge), and the vertex an estimate was requested for. *)
+(* Whether the label improved is not logged: it is decided by the specification's own comparison      *)
+(* (either way on an exact tie) and pinned by the rest of the trace and the final tree.               *)
 T_Relax == /\ Ev.ev = "Relax" /\ pc = "relax"
            /\ LET e == Ev.e IN
                 /\ e \in todo
-                /\ Ev.last = lastE
-                /\ Ev.cs = St(cur)
-                /\ Ev.valid = Valid(e, lastE)
-                /\ IF Ev.valid
-                   THEN /\ Ev.as = AccSt(St(cur), lastE, e)
-                        /\ Ev.tb = Ev.as /\ Ev.te = e
+                /\ Ev.fcalled => (Ev.last = lastE /\ Ev.cs = St(cur) /\ Ev.valid = Valid(e, lastE))
+                /\ ~Ev.fcalled => Valid(e, lastE)
+                /\ (Valid(e, lastE) /\ Ev.te # 0) =>
+                        /\ Ev.te = e
+                        /\ Ev.tb = AccSt(St(cur), lastE, e)
                         /\ Ev.st = NextSt(St(cur), lastE, e)
-                        /\ Ev.ae = (IF lastE = 0 THEN <<>> ELSE <<First(lastE, e), Second(lastE, e)>>)
-                        /\ Ev.est # -1 => (Ev.est = Far(e) /\ scn.dst # 0)
-                   ELSE Ev.est = -1
-                /\ IF scn.dst # 0 THEN Relax(e, Ev.est # -1)
-                                  ELSE \E imp \in BOOLEAN : Relax(e, imp)
+                        /\ Ev.ae # <<>> => (Ev.ae = <<First(lastE, e), Second(lastE, e)>> /\ Ev.as = Ev.tb)
+                        /\ (Ev.ae = <<>> /\ lastE # 0) => Delay(lastE, e) = 0
+                /\ (Valid(e, lastE) /\ Ev.est # -1) => Ev.est = Far(e)
+                /\ \E imp \in BOOLEAN : (imp => (Ev.te # 0)) /\ Relax(e, imp)
 
 TreeRows == {[v |-> v, p |-> tree[v].p, e |-> tree[v].e, st |-> tree[v].st, acc |-> tree[v].acc, trv |-> tree[v].trv]
                : v \in DOMAIN tree}
